@@ -831,7 +831,7 @@ pub fn run_case_focus(case: &QueueCase, ctx: &Ctx, focus: Option<QRule>) -> Run 
                                 }
                             }
                         }
-                        StepOut::Ok => {
+                        StepOut::Ok | StepOut::OkZero => {
                             last_step_panic = false;
                             if last_err_then_ok == 1 {
                                 last_err_then_ok = 2;
@@ -920,7 +920,8 @@ pub fn run_case_focus(case: &QueueCase, ctx: &Ctx, focus: Option<QRule>) -> Run 
 
 fn step_out(err_w: u32, panic_w: u32) -> impl Strategy<Value = StepOut> {
     prop_oneof![
-        6 => Just(StepOut::Ok),
+        5 => Just(StepOut::Ok),
+        1 => Just(StepOut::OkZero),
         err_w => (0u8..13).prop_map(StepOut::Err),
         panic_w => Just(StepOut::Panic),
     ]
